@@ -365,10 +365,10 @@ def check(ctx):
                'compression methods are checked as relations: |O psi - result|^2 <= reported eps + 1e-8 (no truncation requested)')
     only = ctx.only
     if not only or 'mc' in only:
-        res = run_mc(ctx, 'MPOAlgebra-depth2', 'ConfigsQuick' if quick else 'ConfigsFull', 2, 0, 5 if quick else 1)
+        res = run_mc(ctx, 'MPOAlgebra-depth2', 'ConfigsQuick' if quick else 'ConfigsFull', 2, 0, 5 if quick else 3)
         runs = [res]
         if not quick:
-            runs.append(run_mc(ctx, 'MPOAlgebra-depth3', 'ConfigsQuick', 3, 1, 2))
+            runs.append(run_mc(ctx, 'MPOAlgebra-depth3', 'ConfigsQuick', 3, 1, 4))
         cov = {}
         for r in runs:
             for a, (dd, t) in r.coverage.items():
@@ -378,7 +378,7 @@ def check(ctx):
         if missing:
             raise core.MachineryError('actions never taken in the MC runs (vacuous): %r' % missing)
     if not only or 'sim' in only:
-        run_sim(ctx, 'ConfigsQuick' if quick else 'ConfigsFull', 80 if quick else 2400, 6)
+        run_sim(ctx, 'ConfigsQuick' if quick else 'ConfigsFull', 80 if quick else 1500, 6)
     if not only or 'canary' in only:
         run_canary(ctx)
     ctx.exhaustive = False
